@@ -81,8 +81,13 @@ def _isverbatim(t: t.Any) -> bool:
     reference (`"bytes"`, a string-valued alias) which names one.
     """
     unwrapped = inspection.unwrap(t)
-    if isinstance(unwrapped, (str, refs.ForwardRef)):
+    # (What a reference names may be a reference again: a string naming a string-valued alias.)
+    seen: set[refs.ForwardRef] = set()
+    while isinstance(unwrapped, (str, refs.ForwardRef)):
         ref = refs.forwardref(unwrapped) if isinstance(unwrapped, str) else unwrapped
+        if ref in seen:  # an alias which names itself names no type
+            return False
+        seen.add(ref)
         unwrapped = inspection.unwrap(refs.evaluate(ref))
     return inspection.isbytestype(inspection.origin(unwrapped))
 
